@@ -1,3 +1,4 @@
+import math
 from typing import Callable, Optional
 
 
@@ -54,6 +55,10 @@ class BrentsRootFinder:
                 dx = p / q
         except ZeroDivisionError:
             # Ordinates that are exactly zero make the interpolation degenerate
+            interpolation_failed = True
+            dx = 0.0
+        if not math.isfinite(dx):
+            # Ordinates of very different magnitudes overflow the interpolation
             interpolation_failed = True
             dx = 0.0
 
